@@ -75,6 +75,8 @@ type thread struct {
 	op    pending
 	done  bool
 	inAPI bool
+	// rendezvous: granted as the passive side of an unbuffered channel operation: park right after it
+	rendezvous bool
 }
 
 // Event is one granted operation.
@@ -114,6 +116,8 @@ type Exec struct {
 	hostDone    bool
 	only        func(kind, label string) bool
 	usedMu      []*Mutex
+	evaluating  *thread // the thread whose enabledness is being computed (it is not its own partner)
+	Rendezvous  int
 	usedRW      []*RWMutex
 }
 
@@ -139,12 +143,30 @@ func (e *Exec) ready(op Op) bool {
 		if e.closed[v.Pointer()] {
 			return true // sending on a closed channel panics: that is an enabled (and observable) step
 		}
-		return v.Cap() > 0 && v.Len() < v.Cap()
+		if v.Cap() == 0 {
+			return e.partner(v.Pointer(), opRecv) != nil // unbuffered: a receiver must be parked in a blocking receive
+		}
+		return v.Len() < v.Cap()
 	}
-	return v.Len() > 0 || e.closed[v.Pointer()]
+	if v.Len() > 0 || e.closed[v.Pointer()] {
+		return true
+	}
+	return v.Cap() == 0 && e.partner(v.Pointer(), opSend) != nil // unbuffered: a sender is parked in its send
+}
+
+// partner returns a thread parked in a blocking send / receive on the unbuffered channel ch.
+func (e *Exec) partner(ch uintptr, kind opKind) *thread {
+	for _, t := range e.threads {
+		if !t.done && t != e.evaluating && t.op.kind == kind && chanID(t.op.ch) == ch {
+			return t
+		}
+	}
+	return nil
 }
 
 func (e *Exec) enabled(t *thread) bool {
+	e.evaluating = t
+	defer func() { e.evaluating = nil }()
 	switch t.op.kind {
 	case opSend:
 		return e.ready(Op{true, t.op.ch})
@@ -288,6 +310,33 @@ func Run(o Options, body func()) (e *Exec) {
 				t.op.once.running = true
 			}
 		}
+		// unbuffered rendezvous: the operation granted to t completes against a thread parked in the
+		// matching blocking operation; both run for the duration of the channel operation, the partner
+		// parks again immediately after it
+		var mate *thread
+		e.evaluating = t
+		switch t.op.kind {
+		case opSelect:
+			if t.op.result >= 0 {
+				o := t.op.ops[t.op.result]
+				if v := reflect.ValueOf(o.Ch); v.IsValid() && !v.IsNil() && v.Cap() == 0 && v.Len() == 0 && !e.closed[v.Pointer()] {
+					if o.Send {
+						mate = e.partner(v.Pointer(), opRecv)
+					} else {
+						mate = e.partner(v.Pointer(), opSend)
+					}
+				}
+			}
+		case opSend, opRecv:
+			if v := reflect.ValueOf(t.op.ch); v.IsValid() && !v.IsNil() && v.Cap() == 0 && !e.closed[v.Pointer()] {
+				if t.op.kind == opSend {
+					mate = e.partner(v.Pointer(), opRecv)
+				} else {
+					mate = e.partner(v.Pointer(), opSend)
+				}
+			}
+		}
+		e.evaluating = nil
 		e.cur = t
 		if !timer.Stop() {
 			select {
@@ -296,6 +345,21 @@ func Run(o Options, body func()) (e *Exec) {
 			}
 		}
 		timer.Reset(o.Watchdog)
+		if mate != nil {
+			e.Rendezvous++
+			mate.rendezvous = true
+			mate.grant <- true
+			t.grant <- true
+			a, b := wait(), wait()
+			// one of the two parks is the partner's stop right after the channel operation
+			if a == mate {
+				last = b
+			} else {
+				last = a
+			}
+			e.cur = nil
+			continue
+		}
 		t.grant <- true
 		last = wait()
 	}
@@ -435,8 +499,22 @@ func Send[T any](c chan<- T, v T) {
 		c <- v
 		return
 	}
-	hook(pending{kind: opSend, label: "send", ch: c})
-	c <- v // cannot block: the scheduler established that there is room (or the channel is closed: panics like Go)
+	t := hook(pending{kind: opSend, label: "send", ch: c})
+	c <- v // cannot block for long: there is room, a partner was granted together with this thread, or the channel is closed (panics like Go)
+	afterRendezvous(t)
+}
+
+// afterRendezvous parks the passive side of an unbuffered channel operation again.
+func afterRendezvous(t *thread) {
+	if t != nil && t.rendezvous {
+		t.rendezvous = false
+		e := active
+		t.op = pending{kind: opPoint, label: "after-rendezvous"}
+		e.parked <- t
+		if !<-t.grant {
+			panic(abortSentinel{})
+		}
+	}
 }
 
 // Recv receives from c.
@@ -444,8 +522,10 @@ func Recv[T any](c <-chan T) T {
 	if active == nil {
 		return <-c
 	}
-	hook(pending{kind: opRecv, label: "recv", ch: c})
-	return <-c
+	t := hook(pending{kind: opRecv, label: "recv", ch: c})
+	v := <-c
+	afterRendezvous(t)
+	return v
 }
 
 // Recv2 is the two-result receive.
@@ -454,8 +534,9 @@ func Recv2[T any](c <-chan T) (T, bool) {
 		v, ok := <-c
 		return v, ok
 	}
-	hook(pending{kind: opRecv, label: "recv", ch: c})
+	t := hook(pending{kind: opRecv, label: "recv", ch: c})
 	v, ok := <-c
+	afterRendezvous(t)
 	return v, ok
 }
 
